@@ -30,11 +30,11 @@ DEEP = ["<svg>", "<math>", "<style>", "<foreignObject>", "<desc>", "<mtext>", "<
 # inject_meta_charset are not part of the MODEL-level exploration (they are in the recorded traces)
 OPTS = [
     {"qav": "legacy", "qc": "best", "ltattr": False, "escrc": False, "minbool": True, "solidus": False, "spacesol": True,
-     "resolve": True, "omit": False},
+     "resolve": True, "omit": False, "pf": []},
     {"qav": "spec", "qc": "sq", "ltattr": True, "escrc": False, "minbool": False, "solidus": True, "spacesol": False,
-     "resolve": True, "omit": True},
+     "resolve": True, "omit": True, "pf": []},
     {"qav": "always", "qc": "dq", "ltattr": False, "escrc": True, "minbool": True, "solidus": False, "spacesol": True,
-     "resolve": True, "omit": False},
+     "resolve": True, "omit": False, "pf": []},
 ]
 FIRSTS = [(None, False), ("div", False), ("div", True)]
 REPARSES = [(None, False), ("div", False), ("div", True), ("select", False), ("table", False), ("textarea", False)]
